@@ -97,7 +97,28 @@ fn main() {
         }
         "C16" => run_model(vec![(skv_verif::engine_corrupt::c16(40), 160, 3200), (skv_verif::engine_corrupt::c16(600), 6, 240)], tier, replay),
         "C18" => run_model(vec![(skv_verif::fmt_bptree::c18(60, false), 4000, 60000), (skv_verif::fmt_bptree::c18(300, false), 300, 6000), (skv_verif::fmt_bptree::c18(60, true), 400, 6000)], tier, replay),
-        "C01" => run_model(vec![(props::c01(), 20000, 400000)], tier, replay),
+        "C01" => {
+            use skv_verif::engine_sched::{sched_prop, Flavor};
+            let findings = Findings::load();
+            let main = props::c01();
+            let sched = sched_prop("C01", Flavor::C01);
+            if let Some(p) = replay {
+                let text = std::fs::read_to_string(&p).unwrap_or_default();
+                if text.contains("\"actors\"") {
+                    std::process::exit(replay_one(&sched, &p, &findings));
+                }
+                std::process::exit(replay_one(&main, &p, &findings));
+            }
+            let seed = seed_from_env();
+            let t0 = Instant::now();
+            let mut rep = Report::default();
+            run_replays(&main, &findings, &mut rep);
+            run_replays(&sched, &findings, &mut rep);
+            rep.merge(run_prop(&main, cases_for(tier, 20000, 400000), seed, 0, &findings));
+            rep.merge(run_prop(&sched, cases_for(tier, 4000, 80000), seed, 1, &findings));
+            let rule = format!("{} || SECOND STREAM ({})", main.rule, sched.rule);
+            finish(main.id, main.level, tier, seed, &rule, &main.assumptions, &rep, t0.elapsed().as_secs_f64(), &findings)
+        }
         "C02" => {
             use skv_verif::engine_crash::{crash_prop, Judge};
             run_model(vec![(crash_prop("C02", Judge::Acked, 5, false), 60, 1500), (crash_prop("C02", Judge::Acked, 0, false), 8, 300), (crash_prop("C02", Judge::Acked, 5, true), 12, 300)], tier, replay)
@@ -106,7 +127,30 @@ fn main() {
             use skv_verif::engine_crash::{crash_prop, Judge};
             run_model(vec![(crash_prop("C03", Judge::Prefix, 5, false), 60, 1500), (crash_prop("C03", Judge::Prefix, 0, false), 8, 300), (crash_prop("C03", Judge::Prefix, 5, true), 12, 300)], tier, replay)
         }
-        "C15" => run_model(vec![(skv_verif::engine_fault::c15(4, false), 300, 6000), (skv_verif::engine_fault::c15(0, false), 20, 600), (skv_verif::engine_fault::c15(9, true), 32, 800)], tier, replay),
+        "C15" => {
+            use skv_verif::engine_sched::{sched_prop, Flavor};
+            let findings = Findings::load();
+            let main = skv_verif::engine_fault::c15(4, false);
+            let sched = sched_prop("C15", Flavor::C15);
+            if let Some(p) = replay {
+                let text = std::fs::read_to_string(&p).unwrap_or_default();
+                if text.contains("\"actors\"") {
+                    std::process::exit(replay_one(&sched, &p, &findings));
+                }
+                std::process::exit(replay_one(&main, &p, &findings));
+            }
+            let seed = seed_from_env();
+            let t0 = Instant::now();
+            let mut rep = Report::default();
+            run_replays(&main, &findings, &mut rep);
+            run_replays(&sched, &findings, &mut rep);
+            rep.merge(run_prop(&main, cases_for(tier, 300, 6000), seed, 0, &findings));
+            rep.merge(run_prop(&skv_verif::engine_fault::c15(0, false), cases_for(tier, 20, 600), seed, 1, &findings));
+            rep.merge(run_prop(&skv_verif::engine_fault::c15(9, true), cases_for(tier, 32, 800), seed, 2, &findings));
+            rep.merge(run_prop(&sched, cases_for(tier, 2000, 40000), seed, 3, &findings));
+            let rule = format!("{} || SECOND STREAM: {}", main.rule, sched.rule);
+            finish(main.id, main.level, tier, seed, &rule, &main.assumptions, &rep, t0.elapsed().as_secs_f64(), &findings)
+        }
         "C04" => {
             use skv_verif::engine_sched::{sched_prop, Flavor};
             run_model(vec![(sched_prop("C04", Flavor::C04), 2500, 50000)], tier, replay)
@@ -117,7 +161,7 @@ fn main() {
         }
         "C17" => {
             use skv_verif::engine_sched::{sched_prop, Flavor};
-            run_model(vec![(sched_prop("C17", Flavor::C17), 1500, 30000)], tier, replay)
+            run_model(vec![(sched_prop("C17", Flavor::C17), 1500, 30000), (sched_prop("C17", Flavor::C17Stall), 1200, 24000), (sched_prop("C17", Flavor::C17Permit), 1200, 24000), (sched_prop("C17", Flavor::C17Fail), 800, 16000)], tier, replay)
         }
         "C01S" => {
             use skv_verif::engine_sched::{sched_prop, Flavor};
